@@ -33,7 +33,7 @@ STR_KEYS = ['k', 'key2', '(1, 3)', "('a', 3)", 'a b', 'x.y', "q'uote",
 IDENT_KEYS = ['d41d8cd98f', 'k1', 'ab_cd', 'Z9', 'f00', 'e3b0c44298fc1c14', 'TASK_1', 'K_max']
 INT_KEYS = [1, 2, -7, 10 ** 12]
 FLOAT_KEYS = [1.5, -0.25]
-TUPLE_KEYS = [(1, 2), ('a', 1), (1, (2, 3)), ((1,), ('k', 2))]
+TUPLE_KEYS = [(1, 2), ('a', 1), (1, (2, 3)), ((1,), ('k', 2)), frozenset([1, 2]), frozenset([5])]   # hashable AND iterable
 BYTES_KEYS = [pickle.dumps((1, 2)), pickle.dumps(('a',), 0), pickle.dumps(((3,), {}), 2)]
 # source-text directory archives import K_<name>: besides identifier-like strings they take every key
 # whose directory name is importable and whose real value goes to an __args__.py input file
